@@ -13,6 +13,7 @@ import numpy as np
 ID = "C17"
 FLAVOUR = "san"
 LEVEL = "exploration"
+THOROUGH_MULT = 3.0       # deepens the sampled strata of the thorough tier (measured: about ten minutes on 16 cores)
 RULE = (
     "seeded generator.  Annotation strata: AtomArray / AtomArrayStack of 0-40 (occasionally up to 200, thorough: up to 1500) atoms whose "
     "chain_id / res_id / ins_code / res_name are walked from a 3-4 letter vocabulary (a step changes a random subset of "
